@@ -29,7 +29,7 @@ FAMILIES = ["linear", "convection", "gradient_norm", "polynomial", "nonlinear"]
 
 def cases(tier, seed):
     out = []
-    Ns = {1: [12, 15], 2: [7, 8], 3: [5, 6]} if tier == "quick" else {1: [9, 12, 16, 21], 2: [6, 7, 9, 12], 3: [5, 6, 7]}
+    Ns = {1: [12, 15], 2: [7, 8], 3: [6, 7]} if tier == "quick" else {1: [9, 12, 16, 21], 2: [6, 7, 9, 12], 3: [6, 7, 8]}
     for pair in PAIRS:
         for D in (1, 2, 3):
             if pair == "swift_1d" and D > 1 or pair == "ns_vorticity" and D != 2:
@@ -67,6 +67,8 @@ def compare(bus, monitor, a, b, u, sig, info, steps=2):
 def run_pair(case, bus, ex):
     rng = env.rng_for(*case["rs"])
     pair, D, N = case["pair"], case["D"], case["N"]
+    if pair in ("allen_cahn", "swift_1d") and N < 8:
+        N = 8 + (N % 2)          # cubic terms use the 1/2 rule: below N = 8 the retained band is only the mean and the nonlinearity would never act
     S_, Gn, R = ex.stepper, ex.stepper.generic, ex.stepper.reaction
     L = float(rng.choice([1.0, 2 * np.pi, 3.3, 0.6]))
     dt = float(10 ** rng.uniform(-3, -1.5))
